@@ -92,6 +92,14 @@ def run_shard(shard, tier, seed, wd, res):
         s.op("pairing_product", p[0], q_[0], np_a, q_[0])
         nq_a = s.op("g2.aneg", q_[0])
         s.op("pairing_product", p[0], q_[0], p[0], nq_a)
+        # equal / opposite operands on one side with DIFFERENT partners (no cancellation): e(p1,q) e(p2,+-q), e(+-p,q1) e(p,q2)
+        p2_ = rng.choice([x for x in pool1 if x is not p] or pool1)
+        q2_ = rng.choice([x for x in pool2 if x is not q_] or pool2)
+        s.op("pairing_product", p[0], q_[0], p2_[0], nq_a)
+        s.op("pairing_product", p[0], q_[0], p2_[0], q_[0])
+        s.op("pairing_product", p[0], q_[0], np_a, q2_[0])
+        s.op("pairing_product", p[0], q_[0], p[0], q2_[0])
+        s.op("pairing_multi", V.lst([p[0], p2_[0], p[0], np_a]), V.lst([q_[0], nq_a, q2_[0], q2_[0]]))
         a, b = rng.getrandbits(200), rng.getrandbits(200)
         pa = s.op("g1.to_affine", s.op("g1.amul", p[0], V.RR(a)))
         qb = s.op("g2.to_affine", s.op("g2.amul", q_[0], V.RR(b)))
